@@ -105,7 +105,7 @@ def family_suite(seed, count, k, out, drv, budget_s=None):
             variants = []
             for j in range(k):
                 lay = 0 if j == 0 else (1 if j == 1 else 2)
-                gen = GM.Gen(random.Random(f"C04/{seed}/{n}"), layout=lay, lg=random.Random(f"C04/{seed}/{n}/lay{j}"), max_items=5, same_line=(0.3 if lay == 2 and n % 2 == 0 else 0))
+                gen = GM.Gen(random.Random(f"C04/{seed}/{n}"), layout=lay, lg=random.Random(f"C04/{seed}/{n}/lay{j}"), max_items=5, same_line=(0.3 if lay >= 1 and n % 2 == 0 else 0))      # also in the mild layout, where commands stay on one line: two commands that START on one line
                 variants.append(gen.module())
             cfg = {}
             rend = drv.run([dict(op='render', module=m) for m in variants])
@@ -328,7 +328,7 @@ def cmake_trace_suite(seed, count, out, drv):
     with impl.Sandbox() as sb:
         p = sb.write('probe.cmake', 'function(probe)\nendfunction()\n' + src)
         tr = os.path.join(sb.dir, 'trace.json')
-        pr = subprocess.run(['cmake', '--trace-format=json-v1', '--trace-redirect=' + tr, '-P', p], capture_output=True, text=True)
+        pr = subprocess.run(['cmake', '--trace-format=json-v1', '--trace-redirect=' + tr, '-P', p], capture_output=True, text=True, errors='replace')
         if pr.returncode != 0:
             out.violations.append(dict(suite='cmake-trace', key=seed, source=src, detail=dict(kind='CMake itself rejects the rendered file (reference spec wrong?)', stderr=pr.stderr[-500:]), model_agrees=True)); return
         got = []
